@@ -6,5 +6,8 @@ mkdir -p gen
 cd gen
 timeout 600 coqc -Q ../../coq PV ../../coq/Extract/Extract.v > extract.log 2>&1 || { cat extract.log; exit 1; }
 cp ../driver.ml ../runners.ml .
-timeout 600 ocamlfind ocamlopt -O3 -w -a -package str model.mli model.ml runners.ml driver.ml -o ../driver 2>/dev/null \
- || timeout 600 ocamlfind ocamlopt -w -a -package str model.mli model.ml runners.ml driver.ml -o ../driver
+# build into a temporary name and rename atomically: a check that starts the driver while another check rebuilds it must never see
+# a half-written executable
+timeout 600 ocamlfind ocamlopt -O3 -w -a -package str model.mli model.ml runners.ml driver.ml -o ../driver.new 2>/dev/null \
+ || timeout 600 ocamlfind ocamlopt -w -a -package str model.mli model.ml runners.ml driver.ml -o ../driver.new
+mv -f ../driver.new ../driver
